@@ -133,3 +133,13 @@ def _(self: Ref['mqtt.client.factory.MQTTFactory'], addr: Obj, prof: int) -> Any
 def _():
     gset(self.g_firing, None)
     gset(self.g_dispatched, lb())
+
+
+# ---- the link between two connections to one address: what connectionLost guarantees is what buildProtocol requires
+@lemma(props=['C11', 'C12', 'C19'])
+def rest_after_loss(self: Ref['mqtt.client.pubsubs.MQTTProtocol']):
+    requires(lost_state(self))
+    requires(is_int(self.factory.profile))      # set by MQTTFactory.__init__, in the keep-list of every protocol contract
+    ensures(fwf(self.factory))
+    ensures(session_at_rest(self.factory, self.addr))
+    ensures(rest_distinct(self.factory, self.addr))
